@@ -19,6 +19,11 @@ COMMON_ASSUMPTIONS = [
 
 EXTRA_OVERLAY = {}
 
+NOT_REACHED = {
+    "C08": "not reached: deciding P(v) = P(tovalue v) for gojq's primitives needs an overlay export shim into gojq's unexported functions (funcLength, funcIndex2, ...); not built in the session (DESIGN §6). The one defect known from reading (gojqx.Number.JQValueLength returns the number, not its absolute value) is therefore NOT detected by any check",
+    "C20": "not reached: the engine has no goroutine scheduler (go statements, blocking channel operations and select are unsupported), so neither interleavings of the interrupt trigger with push/pop nor races on ctxstack.cancelFns can be executed (DESIGN §6)",
+}
+
 import os, re, subprocess
 
 
@@ -399,4 +404,49 @@ PROPS["C14"] = {
     ],
     "assumptions": ["mapstruct.ToStruct (reflection) is the engine's implementation for the option struct {encoding: string}"],
     "outside": ["URL functions, text encodings (x/text), radix.jq, hashes, JSON/YAML/TOML/XML/CSV round trips: third-party reflective parsers / jq text / whole-stream loops — not applicable to this technique (DESIGN §5 C14)"],
+}
+
+
+PROPS["C09"] = {
+    "level": "model_checking",
+    "explanation": "binary values against a reference bit string: the real Binary.JQValueSlice/JQValueIndex/JQValueLength/JQValueKey(size,start,stop,unit,bits,bytes)/JQValueToNumber, toBitReaderEx for numbers, strings, binaries and binary arrays (fast and general path), over symbolic bytes with bit granular ranges in both units",
+    "wall_quick": 900, "wall_thorough": 3600,
+    "harnesses": [
+        {"entry": "pkg/interp.VerifBinarySlice", "clause": "slice = sub-sequence in units", "bounds": {"bytes": 4, "start": "0,3,8,9", "len": "0,1,7,8,9,13,23", "from<=to<=length": "all"}},
+        {"entry": "pkg/interp.VerifBinaryIndexKeys", "clause": "index = unit-wide integer; outside is null; size/start/stop (rounded up)/unit/bits/bytes keys", "bounds": {"bytes": 4}},
+        {"entry": "pkg/interp.VerifBinaryToNumber", "clause": "tonumber = unsigned big-endian value of the bits", "bounds": {"bits": "<= 23"}},
+        {"entry": "pkg/interp.VerifBinaryArrayConcat", "clause": "splitting a binary in two and concatenating through a binary array restores the bits; no bits beyond", "bounds": {"bytes": 3}},
+        {"entry": "pkg/interp.VerifBinaryArrayNumbers", "clause": "binary arrays of numbers/strings/big integers: bytes in order; numbers outside 0..255 are an error, never a wrapped byte", "bounds": {"members": "2..3"}},
+        {"entry": "pkg/interp.VerifNumberToBits", "clause": "a non-negative number as a binary is its minimal big-endian bit representation (0 is one zero bit)", "bounds": {"value": "any uint64"}},
+    ],
+    "assumptions": ["slice and index arguments are already clamped the way gojq's funcSlice/funcIndex2 clamp them before calling a JQValue (0 <= from <= to <= length, 0 <= index < length, or -1/-2 for outside): the clamping code itself lives in gojq and is not executed"],
+    "outside": ["the jq-level wrappers in binary.jq/decode.jq (explode, tobitsrange, to_hex routing)", "gojq's own clamping of indices", "negative numbers and floats as binaries"],
+}
+
+PROPS["C18"] = {
+    "level": "model_checking",
+    "explanation": "sequential isolation only (2-safety): two decodes of the same symbolic input with the same program parameters that differ only in the arbitrary contents of the shared read buffer (the state that survives from one decode to the next and is handed to nested decodes) produce identical trees, values, ranges and errors; byte slices returned to callers do not alias the shared buffer",
+    "wall_quick": 600, "wall_thorough": 1800,
+    "harnesses": [
+        {"entry": "pkg/decode.VerifIsolationFlat", "clause": "program flat, two decodes with different read-buffer garbage", "bounds": {"buffer_bytes": "0..6"}},
+        {"entry": "pkg/decode.VerifIsolationNested", "clause": "program nested", "bounds": {"buffer_bytes": "0..6"}},
+        {"entry": "pkg/decode.VerifIsolationFramed", "clause": "program framed", "bounds": {"buffer_bytes": "0..6"}},
+        {"entry": "pkg/decode.VerifIsolationSubformat", "clause": "program subformat (nested decode shares the read buffer)", "bounds": {"buffer_bytes": "0..6"}},
+        {"entry": "pkg/decode.VerifNoAlias", "clause": "BytesLen/BytesRange results are unchanged by later reads", "bounds": {"pos": "0..7"}},
+    ],
+    "assumptions": [],
+    "outside": ["schedules and data races of concurrent decodes, registry resolution under sync.Once, include cache, package-level tables: interleavings are not encodable by the engine (no scheduler) — the concurrency clauses of the property are NOT decided"],
+}
+
+PROPS["C19"] = {
+    "level": "model_checking",
+    "explanation": "fq's own reassembly callback and dispatch only: TCPConnection.ReassembledSG as one step from an arbitrary connection state with an arbitrary batch (direction, start/end flags, skip count, data), RAWIPFrame version dispatch on frames of length 0..2, Decoder.New endpoint/port attribution for raw endpoints of length 0..3",
+    "wall_quick": 600, "wall_thorough": 1800,
+    "harnesses": [
+        {"entry": "format/inet/flowsdecoder.VerifReassembledSG", "clause": "right direction, other untouched, skip adds exactly the missing count and appends nothing, otherwise exactly the delivered bytes are appended, flags monotone", "bounds": {"buffered": "0..2 bytes per direction", "data": "0..3 bytes", "skip": "-1..2^40"}},
+        {"entry": "format/inet/flowsdecoder.VerifRAWIPFrame", "clause": "frames without a valid version nibble (also the empty frame) are an error, never a fault", "bounds": {"frame_bytes": "0..2"}},
+        {"entry": "format/inet/flowsdecoder.VerifNewPorts", "clause": "ports big-endian from 2-byte endpoints else 0, addresses attributed to the right side, streams start empty", "bounds": {"endpoint_bytes": "0..3"}},
+    ],
+    "assumptions": ["the order and content of batches is whatever gopacket's assembler delivers (arbitrary here)"],
+    "outside": ["gopacket's assembler, defragmenter and layer parsers (third party: maps, pools, time): segmentations, interleavings, retransmissions, link types are NOT decided", "'nothing after the first missing byte' depends on the assembler's batch order"],
 }
